@@ -1,4 +1,5 @@
 import OpcuaModel.Model.SendSeqInv
+import OpcuaModel.Model.SendGate
 import OpcuaModel.Gen.SeqNum
 import OpcuaModel.Gen.SendFacts
 /-
@@ -185,6 +186,33 @@ theorem C11_not_full : ¬ ∀ s, Reachable s → Consecutive s.base s.wire := by
 theorem C11_guard_excludes_stale :
     (run? (init 100 1) (staleTrace.take 3)).map (fun s => decide (Guard s .rLock)) = some false := by
   decide
+
+/-! ### several renewers and `Close()` on the gate (`Model/SendGate.lean`)
+
+The sender / renewal LTS above has one renewer; its invariant `gate` ("the gate
+is closed exactly while the renewer is busy") is what the gate LTS examines for
+any number of renewers (`Renew()` called during a scheduled renewal) and
+`Close()`. -/
+
+/-- PARTIAL (guard: one renewal at a time, no `Close()` during a renewal): the gate
+    is closed exactly while a renewal is in progress and no request passes it meanwhile -/
+theorem C11_gate_partial {s : SendGate.St} (h : SendGate.ReachableG s) :
+    (s.holders ≠ [] ↔ s.locked = true) ∧ s.badPass = 0 :=
+  ⟨(SendGate.guarded_inv h).2.1, (SendGate.guarded_inv h).2.2⟩
+
+/-- FINDING C11.overlapping-renewals: `conditionLocker.lock()` does not block, so a
+    second `renew` (public `Renew()` during the scheduled renewal) proceeds, and the
+    first one's `unlock()` opens the gate while the second renewal is in progress:
+    requests pass, and the second renewal — which waited for the old instance's
+    mutex — renews the superseded token from its stale counter -/
+theorem C11_finding_overlapping_renewals :
+    (SendGate.run? SendGate.init [.rLock 0, .rLock 1, .rUnlock 0, .pass 7]).map
+      (fun s => (s.locked, s.holders, s.badPass)) = some (false, [1], 1) := by decide
+
+/-- `Close()` during a renewal opens the gate as well (model level) -/
+theorem C11_gate_close_counterexample :
+    (SendGate.run? SendGate.init [.rLock 0, .close, .pass 7]).map
+      (fun s => (s.locked, s.holders, s.badPass)) = some (false, [0], 1) := by decide
 
 /-- non-vacuity of the partial theorem: two senders with a three-chunk and a
     one-chunk message around a complete renewal, inside the guard -/
